@@ -22,6 +22,7 @@ func main() {
 		levels = append(levels, zapcore.DebugLevel, zapcore.WarnLevel, zapcore.ErrorLevel, zapcore.DPanicLevel, zapcore.PanicLevel, zapcore.FatalLevel, zapcore.Level(127), zapcore.Level(6), zapcore.Level(-2))
 	}
 	d.F1(nodes)
+	d.ReflectSeqs(nodes)
 	d.F2(strLen)
 	d.F3(levels, true)
 	all := make([]zapcore.Level, 0, 256)
